@@ -316,11 +316,31 @@ func runGet(c Case) (o hx.Outcome) {
 	lf.plant(id, good)
 	lf.plant(oid, wire(other, lf.unc, c.Backend.Enc))
 
+	// further valid chunks for the requests that follow the ones under test: one of the
+	// poisoned chunk's length, a one-byte one, and IDs nobody has
+	hold := &holder{digest: c.Digest}
+	var extraIDs, missingIDs []desync.ChunkID
+	extras := map[desync.ChunkID][]byte{}
+	for _, d := range [][]byte{flipped(data), {data[0] ^ 0xa5}, flipped(other)} {
+		eid := desync.ChunkID(sumWith(c.Digest, d))
+		if _, dup := extras[eid]; dup || eid == id || eid == oid {
+			continue
+		}
+		extras[eid] = d
+		extraIDs = append(extraIDs, eid)
+		lf.plant(eid, wire(d, lf.unc, c.Backend.Enc))
+	}
+	for i := 0; i < 2; i++ {
+		missingIDs = append(missingIDs, desync.ChunkID(sumWith(c.Digest, []byte{'n', 'o', 'b', 'o', 'd', 'y', byte(i)})))
+	}
+
 	// the setup itself must work: the valid object is served as the chunk
 	if ch, err := lf.store.GetChunk(id); err != nil {
 		o.Fail("C03:setup:"+lf.kind+":healthy-get-failed", "before poisoning, GetChunk on the %s backend (%s) failed: %v", lf.kind, lf.hopString(), err)
 	} else if res, detail := classifyGet(ch, nil, id, c.Digest); res != resGood {
 		o.Fail("C03:setup:"+lf.kind+":healthy-get-failed", "before poisoning, GetChunk on the %s backend (%s) returned %s: %s", lf.kind, lf.hopString(), res, detail)
+	} else {
+		hold.keep("the backend before poisoning", id, ch, nil)
 	}
 
 	bad, kind, detail := applyCorr(good, lf.unc, c.Corr, data, other, c.Backend.Enc)
@@ -354,6 +374,7 @@ func runGet(c Case) (o hx.Outcome) {
 	var results []string
 	judge := func(call string, asserted bool, by string, ch *desync.Chunk, err error) {
 		res, rdetail := classifyGet(ch, err, id, c.Digest)
+		hold.keep(call+" through the stack", id, ch, err)
 		tag := res
 		if !asserted {
 			tag += "(unasserted)"
@@ -429,7 +450,19 @@ func runGet(c Case) (o hx.Outcome) {
 		if res, rdetail := classifyGet(ch, nil, oid, c.Digest); isBad(res) {
 			o.Fail("C03:"+lf.kind+":"+fmtn+":"+res, "GetChunk of the untouched chunk %s: %s — %s", oid.String(), clip(rdetail), where)
 		}
+		hold.keep("the request for the untouched chunk", oid, ch, nil)
 	}
+
+	// every chunk handed out as good so far is still held; now other IDs are requested through
+	// the same stack and straight from the same backend store (more requests than the store
+	// has connections: SFTP and the protocol stores run one session here), then the held
+	// chunks are looked at again
+	// (absent IDs last: a casync protocol server ends its session after answering MISSING)
+	followUps := hold.followUp("a follow-up request through the stack", st.top, extraIDs, nil)
+	followUps += hold.followUp("a follow-up request to the backend", lf.store, append([]desync.ChunkID{oid}, extraIDs...), nil)
+	followUps += hold.followUp("a follow-up request through the stack", st.top, nil, missingIDs[:1])
+	followUps += hold.followUp("a follow-up request to the backend", lf.store, nil, missingIDs[1:])
+	hold.recheck(&o, lf.kind+":"+fmtn, where, followUps)
 
 	o.Class("mode:get", "backend:"+lf.kind+":"+fmtn, "corr:"+kind, fmt.Sprintf("depth:%d", len(st.shape)))
 	for _, w := range st.shape {
@@ -479,7 +512,7 @@ func tooBig(bad []byte, lf *leaf) bool {
 var requiredClasses = func() []string {
 	req := []string{"mode:get", "mode:pipeline", "mode:inconsistent", "asserted", "unasserted:all-hops-skipverify", "effective",
 		"changed-but-still-decodes", "result:error", "result:good-data", "hops:server-skip+client-verify", "http:server-side-conversion",
-		"repair:demanded", "repair:replaced", "concurrent-first-call", "digest:" + digestWeakPrefix, "digest:" + digestWeakSuffix,
+		"repair:demanded", "repair:replaced", "held-rechecked", "concurrent-first-call", "digest:" + digestWeakPrefix, "digest:" + digestWeakSuffix,
 		"consumer:" + cAssemble, "consumer:" + cReadSeeker, "consumer:" + cUnTarIndex, "consumer:" + cSparse,
 		"pipeline:" + cAssemble + ":poisoned-fetch", "pipeline:" + cReadSeeker + ":poisoned-fetch", "pipeline:" + cUnTarIndex + ":poisoned-fetch", "pipeline:" + cSparse + ":poisoned-fetch",
 		"inconsistent:" + cAssemble, "inconsistent:" + cReadSeeker, "inconsistent:" + cUnTarIndex, "inconsistent:" + cSparse,
@@ -513,6 +546,7 @@ var spec = &hx.Spec[Case]{
 		"IDs are SHA512/256 computed with crypto/sha512 (in the weak-digest classes: the same with 16 constant bytes, installed as desync.Digest for the case)",
 		"valid objects are written through the back door with an independent klauspost/zstd encoder (4 option sets); 'still decodes' is decided with an independent decoder instance",
 		"nothing is asserted for a call answered only through stores whose SkipVerify is set",
+		"every chunk returned as good is held (with a private copy of its data) while at least 4 further requests for other present and absent IDs go through the same stack and the same backend store object (shared per process for SFTP and S3, one session each), and must then be unchanged",
 		"HTTP is plain HTTP/1.1 on loopback; S3 is the in-process fake; SFTP is pkg/sftp's server in a child process; real ssh, TLS and GCS are not in the loop",
 		"the default (klauspost) build of desync is tested",
 	},
